@@ -41,6 +41,10 @@ type Scenario struct {
 	Entry     string // validate | validate-deprecated | ocsp
 	CRLRoute  string // fetcher | http
 	Cache     string // "" | healthy | get-fault | set-fault
+	// PreloadStale: the cache starts out holding, for every distribution point
+	// that publishes a delta, a bundle left by an earlier run whose base is
+	// current and whose delta has expired (to be discarded, never written to)
+	PreloadStale bool
 	Discard   bool
 	// ClientTimeoutMs > 0 gives the HTTP client a (short, real) timeout so that
 	// a responder that never answers ends in a genuine client timeout.
@@ -60,6 +64,9 @@ func (sc *Scenario) Desc() string {
 	}
 	if sc.STOutside {
 		b.WriteString(" signing-time-outside-validity")
+	}
+	if sc.PreloadStale {
+		b.WriteString(" cache-preloaded-with-expired-deltas")
 	}
 	if sc.DeadlineMs > 0 {
 		fmt.Fprintf(&b, " context-deadline=%dms", sc.DeadlineMs)
@@ -242,6 +249,13 @@ func (sc *Scenario) PrepareOn(net *netsim.Sim) *Env {
 			}
 			if IsHTTPKind(kind) {
 				kit.CRLHandlers(env.Net, j, beh)
+				if sc.PreloadStale && env.Cache != nil {
+					if set := kit.CRL(beh, j); set.Bundle != nil && set.Bundle.DeltaCRL != nil {
+						if stale := kit.CRL("delta-expired", j); stale.Bundle != nil && stale.Bundle.DeltaCRL != nil {
+							env.Cache.Preload(f.URL(pos, "d", j, kind), &crl.Bundle{BaseCRL: set.Bundle.BaseCRL, DeltaCRL: stale.Bundle.DeltaCRL})
+						}
+					}
+				}
 			}
 		}
 	}
